@@ -277,7 +277,7 @@ pub fn run(ctx: &Ctx, rep: &mut Report) {
     // names, /dev mappings, mutated mapped ELF images, every single libc deviation, the target killed
     // before every keyed call): whenever such a dump succeeds it must be structurally sound as well
     *crate::checks::c02::EXTRA_JUDGE.write().unwrap() = Some(judge_owned);
-    let hostile = crate::checks::c02::run_real_cases(ctx.tier.is_thorough());
+    let hostile = if crate::checks::universal::IN_CROSS.load(std::sync::atomic::Ordering::SeqCst) { Vec::new() } else { crate::checks::c02::run_real_cases(ctx.tier.is_thorough()) };
     let (mut hok, mut hother) = (0u64, 0u64);
     for (c, v) in hostile {
         rep.evaluations += 1;
